@@ -39,7 +39,8 @@ func genKwArg(r *rand.Rand) V {
 func genOpArg(r *rand.Rand) string {
 	return []string{"-", "c0", "c1", "c2", "c5", "c6", "c7", "c200",
 		fmt.Sprintf("u1:%s:%s", hx("~="), hx("approx")), fmt.Sprintf("u2:%s:%s", hx(""), hx("ctx")), fmt.Sprintf("u3:%s:%s", hx("=~"), hx("")),
-		fmt.Sprintf("v1:%s:%s", hx("~~"), hx("list")), fmt.Sprintf("v2:%s:%s", hx("in"), hx("list")), fmt.Sprintf("v3:%s:%s", hx(""), hx("list")), "z", "y", "w"}[r.Intn(17)]
+		fmt.Sprintf("v1:%s:%s", hx("~~"), hx("list")), fmt.Sprintf("v2:%s:%s", hx("in"), hx("list")), fmt.Sprintf("v3:%s:%s", hx(""), hx("list")), "z", "y", "w",
+		fmt.Sprintf("u4:%s:%s", hx("=="), hx("comparison")), fmt.Sprintf("v4:%s:%s", hx("cmp"), hx("comparison"))}[r.Intn(19)] // (a user's operator may call its context "comparison" too)
 }
 
 func genExArg(r *rand.Rand) V {
@@ -52,6 +53,9 @@ func genExArg(r *rand.Rand) V {
 		k := V{T: 'K', Form: []string{"n", "a", "as", "p"}[r.Intn(4)], Cfg: Cfg{Kind: 1 + r.Intn(4)}, Xs: []V{{T: 's', S: "x"}, {T: 'i', I: 2}}}
 		if r.Intn(3) == 0 {
 			k.Xs = nil // an initialised but empty Stack is a Stack
+		}
+		if r.Intn(4) == 0 {
+			k.Cfg.Opt |= fNNest // the Stack's own option says nothing about the Condition that holds it
 		}
 		return k
 	case 3:
